@@ -90,6 +90,25 @@ def r1_cache(cx, mods):
                 cx.bad(n, "FILTERS is written outside insights.core.filters without going through add_filter/loads (memo not invalidated)")
 
 
+def r1b_loads_keys(cx):
+    """'registered so far ... no matter in which order registrations and look-ups happened': a filters file read before the module defining a spec was
+    imported must still attach its filters to that spec.  loads() therefore resolves every name with the *importing* resolver dr.get_component; a
+    look-up among already loaded components parks the filters under a string key that get_filters never consults."""
+    cx.rule("C07.R1", "every writer of FILTERS invalidates the whole memo of effective filters", floor=2)
+    m = cx.repo.module(FL)
+    fn = m.func("loads", "C07.R1")
+    stores = [a for a in walk_body(fn.body) if isinstance(a, ast.Assign) and isinstance(a.targets[0], ast.Subscript) and U(a.targets[0].value) == "FILTERS"]
+    if not stores:
+        cx.bad(fn, "loads stores the loaded filters into FILTERS", construct="(no store into FILTERS)")
+        return
+    for a in stores:
+        key = a.targets[0].slice
+        res = [c for c in ast.walk(trace(key, fn) if isinstance(key, ast.Name) else key) if isinstance(c, ast.Call)]
+        names = [call_name(c) for c in res]
+        ok = any(n in ("dr.get_component", "get_component") for n in names)
+        cx.require(ok, a, "loads keys FILTERS by the component that dr.get_component(name) returns (importing its module if need be)", construct=short(a, 90))
+
+
 STOP_CONDITIONS = set(["hasattr(c, 'filterable') and c.filterable is False", "not ENABLED", "not plugins.is_datasource(c)"])
 
 
@@ -424,6 +443,7 @@ def run(cx):
     mods = repo.all_modules() if cx.tier == "thorough" else anchor
     classes = c06.provider_classes(cx, mods)
     cx.guard(r1_cache, mods)
+    cx.guard(r1b_loads_keys)
     cx.guard(r2_union_walk)
     cx.guard(r3_prefilter)
     cx.guard(r4_refusal, classes)
